@@ -1075,4 +1075,8 @@ MUTANTS += [
                 {""")]),
  dict(id="BENIGN-C18-validation-in-division-form", props=["C18", "C19"], benign=True,
       edits=[(US+"workers/socket/mod.rs", 'pub fn validate_response_sizes(config: &Config) -> anyhow::Result<()> {\n    use std::mem::size_of;\n\n    use aquatic_udp_protocol::{\n        AnnounceResponseFixedData, Ipv6AddrBytes, ResponsePeer, TorrentScrapeStatistics,\n        TransactionId,\n    };\n\n    // Action (i32) followed by response data\n    let max_announce_response_len = config\n        .protocol\n        .max_response_peers\n        .saturating_mul(size_of::<ResponsePeer<Ipv6AddrBytes>>())\n        .saturating_add(size_of::<i32>() + size_of::<AnnounceResponseFixedData>());\n    let max_scrape_response_len = size_of::<i32>()\n        + size_of::<TransactionId>()\n        + (config.protocol.max_scrape_torrents as usize) * size_of::<TorrentScrapeStatistics>();\n\n    #[cfg(all(target_os = "linux", feature = "io-uring"))]\n    if config.network.use_io_uring {\n        if max_announce_response_len > self::uring::RESPONSE_BUF_LEN {\n            return Err(anyhow::anyhow!(\n                "protocol.max_response_peers is too large for io_uring response buffers"\n            ));\n        }\n        if max_scrape_response_len > self::uring::RESPONSE_BUF_LEN {\n            return Err(anyhow::anyhow!(\n                "protocol.max_scrape_torrents is too large for io_uring response buffers"\n            ));\n        }\n\n        return Ok(());\n    }\n\n    if max_announce_response_len > crate::common::BUFFER_SIZE {\n        return Err(anyhow::anyhow!(\n            "protocol.max_response_peers is too large for response buffer"\n        ));\n    }\n    if max_scrape_response_len > crate::common::BUFFER_SIZE {\n        return Err(anyhow::anyhow!(\n            "protocol.max_scrape_torrents is too large for response buffer"\n        ));\n    }\n\n    Ok(())\n}\n', 'pub fn validate_response_sizes(config: &Config) -> anyhow::Result<()> {\n    use std::mem::size_of;\n\n    use aquatic_udp_protocol::{\n        AnnounceResponseFixedData, Ipv6AddrBytes, ResponsePeer, TorrentScrapeStatistics,\n        TransactionId,\n    };\n\n    // Action (i32) followed by fixed response data\n    const ANNOUNCE_RESPONSE_BASE_LEN: usize =\n        size_of::<i32>() + size_of::<AnnounceResponseFixedData>();\n    const SCRAPE_RESPONSE_BASE_LEN: usize = size_of::<i32>() + size_of::<TransactionId>();\n    // IPv6 peers take up the most space\n    const MAX_PEER_LEN: usize = size_of::<ResponsePeer<Ipv6AddrBytes>>();\n\n    #[allow(unused_mut)]\n    let (mut buffer_len, mut buffer_name) = (crate::common::BUFFER_SIZE, "response buffer");\n\n    #[cfg(all(target_os = "linux", feature = "io-uring"))]\n    if config.network.use_io_uring {\n        buffer_len = self::uring::RESPONSE_BUF_LEN;\n        buffer_name = "io_uring response buffers";\n    }\n\n    // Calculate limits instead of response lengths so that very large\n    // configured values can\'t cause overflows and so that the limits can be\n    // reported\n    let max_response_peers = (buffer_len - ANNOUNCE_RESPONSE_BASE_LEN) / MAX_PEER_LEN;\n    let max_scrape_torrents =\n        (buffer_len - SCRAPE_RESPONSE_BASE_LEN) / size_of::<TorrentScrapeStatistics>();\n\n    if config.protocol.max_response_peers > max_response_peers {\n        return Err(anyhow::anyhow!(\n            "protocol.max_response_peers is too large for {} (largest possible value: {})",\n            buffer_name,\n            max_response_peers\n        ));\n    }\n    if config.protocol.max_scrape_torrents as usize > max_scrape_torrents {\n        return Err(anyhow::anyhow!(\n            "protocol.max_scrape_torrents is too large for {} (largest possible value: {})",\n            buffer_name,\n            max_scrape_torrents\n        ));\n    }\n\n    Ok(())\n}\n')]),
+ dict(id="BENIGN-C20-rename-accumulator-local", props=["C20", "C10"], benign=True,
+      edits=[(US+"swarm.rs", "        let mut total_num_peers = 0;", "        let mut peer_total = 0;"),
+             (US+"swarm.rs", "                total_num_peers += num_peers;", "                peer_total += num_peers;"),
+             (US+"swarm.rs", "        (total_num_torrents, total_num_peers, opt_histogram)", "        (total_num_torrents, peer_total, opt_histogram)")]),
 ]
